@@ -124,11 +124,30 @@ def neutral_patches():
     return out
 
 
+def evolution_patches():
+    """property-preserving *changes of behaviour* written by independent sub-agents who were given the twenty properties: small
+    features, new table values, stricter checks, clean-ups (stored under /verif/evolution/<id>/patch.diff with the author's
+    argument why every property still holds).  Every check must stay silent on each of them -- except those listed in a
+    NOT-PRESERVING file next to the patch (the author's argument did not survive review; the file says why)"""
+    here = os.path.dirname(os.path.dirname(os.path.abspath(__file__)))
+    nd = os.path.join(here, "evolution")
+    out = []
+    if not os.path.isdir(nd):
+        return out
+    for name in sorted(os.listdir(nd)):
+        patch = os.path.join(nd, name, "patch.diff")
+        if not os.path.exists(patch) or os.path.exists(os.path.join(nd, name, "NOT-PRESERVING")):
+            continue
+        out.append({"id": "evolution:" + name, "kind": "neutral", "props": [], "what": "independent property-preserving change " + name,
+                    "edits": [], "patch": patch})
+    return out
+
+
 def selftest(repo="/repo", props=None, kind=None, jobs=None, only=None, verbose=True):
     from .mutants import MUTANTS
     from .rules import REGISTRY
     allprops = sorted(REGISTRY)
-    MUTANTS = list(MUTANTS) + seeded_mutants() + neutral_patches()
+    MUTANTS = list(MUTANTS) + seeded_mutants() + neutral_patches() + evolution_patches()
     tasks = []
     for m in MUTANTS:
         if only and m["id"] not in only:
